@@ -25,7 +25,7 @@ def run_e1(build, job, workdir):
 E2_ASSUME = [
     "engine E2: the symbolic ikos::z_number of sym/shadow/crab/numbers/bignums.hpp models GMP integers as z3 Int terms (validated on every run by replaying solver models on a native build with the real z_number/GMP and comparing every number crab computed)",
     "CRAB_ERROR ends a path (crab yields no result there); such paths are counted as aborted and are outside the claim",
-    "z3 4.8.12 is trusted for unsat answers; unknown or timeout is never counted as success",
+    "z3 4.8.12 is trusted for unsat answers; unknown or timeout is never counted as success; per job a sample of the discharged queries is decided again by cvc5 (a cvc5 'sat' makes the check inconclusive, exit 2)",
     "hash() of the symbolic number is constant (hash-order independent code only); printing is a no-op on symbolic values",
 ]
 
@@ -227,10 +227,10 @@ PROPS["C16"] = dict(
     assumptions=E2_ASSUME)
 
 # ---------------------------------------------------------------- program-level (C01, C02, C05c)
-FWD_PROGS = ["straight", "diamond", "loop", "loop2", "nested", "selfloop", "entryloop", "irreducible", "unreach", "ops", "bools", "boolstale"]
+FWD_PROGS = ["straight", "diamond", "loop", "loop2", "nested", "selfloop", "entryloop", "irreducible", "unreach", "ops", "ops2", "bools", "bools2", "boolstale", "boolneg", "boolhavoc"]
 # which constants of each program are symbolic in the default job
 FWD_SYM = {"straight": "0,2,3", "diamond": "0,1,3", "loop": "0,1,2", "loop2": "0,1,2", "nested": "0,1", "selfloop": "0,1,2", "entryloop": "0,1",
-           "irreducible": "1,2", "unreach": "0,2", "ops": "0,1,3", "bools": "0,1,2", "boolstale": "0,1,2"}
+           "irreducible": "1,2", "unreach": "0,2", "ops": "0,1,3", "bools": "0,1,2", "boolstale": "0,1,2", "ops2": "0,1", "bools2": "0,1,2", "boolneg": "0,1,2", "boolhavoc": "0,1"}
 
 
 def fwd_job(dom, prog, wd, di, thr, tier, live=0, sym=None, budget=400, soft=False):
@@ -261,6 +261,13 @@ def c01_jobs(tier, seed):
         progs = FWD_PROGS if tier == "thorough" else FWD_PROGS[i % 3::3]
         for pr in progs:
             J.append(fwd_job(d, pr, 1, 1, 0, tier))
+    # the Boolean skeletons always run on the flat Boolean domain
+    have = set(j.name for j in J)
+    for pr in ("bools", "bools2", "boolstale", "boolneg", "boolhavoc"):
+        for live in (0, 1):
+            j = fwd_job(11, pr, 1, 1, 0, tier, live=live)
+            if j.name not in have:
+                J.append(j)
     return J
 
 
@@ -268,7 +275,7 @@ FWD_EXPL = ("The real intra_fwd_analyzer (WTO, interleaved fixpoint iterator, in
             "with SYMBOLIC program constants (all paths of the analysis are explored); then the reference interpreter executes the same cfg object from an arbitrary initial state with symbolic havoc "
             "values and forking goto choices; at every block entry/exit reached z3 decides state in gamma_obs(get_pre/get_post): not bottom, value in at(v), exported constraints hold. "
             "The assertion checker's SAFE / UNREACHABLE verdicts are compared with the assertion outcomes seen by the interpreter.")
-FWD_BOUNDS = {"quick": "12 skeletons (<= 7 blocks: straight line, diamond, simple/nested/self/entry/irreducible loops, unreachable and non-exiting blocks, arithmetic ops, Booleans), <= 3 symbolic constants each (unbounded; +-3 around defaults for machine-weight DBMs), executions of <= 14 block visits; (delay,descending,thresholds) in {(1,1,0),(0,0,0),(2,2,5)} on intervals and zones + liveness pruning; (1,1,0) on 18 further domains for a third of the skeletons",
+FWD_BOUNDS = {"quick": "17 skeletons (<= 7 blocks: straight line, diamond, simple/nested/self/entry/irreducible loops, unreachable and non-exiting blocks, signed/unsigned division, bitwise ops and shifts, selects, Boolean and/or/xor/not/select, Booleans whose operands are overwritten or havocked), <= 3 symbolic constants each (unbounded; +-3 around defaults for machine-weight DBMs), executions of <= 14 block visits; (delay,descending,thresholds) in {(1,1,0),(0,0,0),(2,2,5)} on intervals and zones + liveness pruning; (1,1,0) on 18 further domains for a third of the skeletons",
               "thorough": "all 18 parameter settings on intervals and zones, all skeletons on all domains"}
 FWD_OUT = ["programs outside the family (structure is concrete; 'all programs' is bounded to it)", "executions longer than 14 block visits", "arrays / references (C14, C15)", "alternative entry blocks and assumption maps (covered for the engine by C06)"]
 PROPS["C01"] = dict(jobs=c01_jobs, explanation=FWD_EXPL, bounds=FWD_BOUNDS, outside=FWD_OUT, assumptions=E2_ASSUME + ["the reference interpreter sym/interp.hpp defines the concrete semantics of CrabIR (unsigned ops only on non-negative operands, shifts by 0..6, bitwise ops on 12-bit values)"])
@@ -339,13 +346,12 @@ def c07_jobs(tier, seed):
     rng = random.Random(70 + seed)
     o4 = ["0123", "3210"]
     if tier == "thorough":
-        import itertools
-        o4 = ["".join(p) for p in itertools.permutations("0123")]
+        o4 = ["0123", "3210", "1032", "2301", "0213", "3120"]
     for o in o4:
         for e in ((0,) if tier == "quick" else (0, 1, 2, 3)):
             J.append(Job("c07", {"nv": 4, "entry": e, "order": o}, what="all graphs with 4 nodes (2^16 adjacency matrices, explored through the bits the algorithm reads)", budget=900, shards=16, shard_depth=10, witnesses=1))
     if tier == "thorough":
-        J.append(Job("c07", {"nv": 5, "entry": 0, "order": "01234"}, what="graphs with 5 nodes (attempted under a path budget)", budget=3000, shards=16, shard_depth=12, witnesses=1, soft=True))
+        J.append(Job("c07", {"nv": 5, "entry": 0, "order": "01234"}, what="graphs with 5 nodes (attempted under a path budget)", budget=1200, shards=16, shard_depth=12, witnesses=1, soft=True))
     return J
 
 
@@ -354,7 +360,7 @@ PROPS["C07"] = dict(
     explanation="The real ikos::wto<G> runs on a graph whose adjacency bits are solver symbols read lazily (the algorithm forks on every bit it inspects; all combinations are explored); "
                 "the well-formedness conditions (each node reachable from the entry exactly once - reachability being a formula over ALL bits -, edge condition, proper nesting, nesting() = strictly enclosing heads outermost first) are decided by z3 on every path. "
                 "For this structure-only property the solver's contribution is the exhaustive, demand-driven enumeration of graphs and the decision of the reachability formula over the unread bits.",
-    bounds={"quick": "all directed graphs with <= 4 nodes (self loops, unreachable nodes, irreducible cycles included), every entry node for <= 3 nodes, two successor orders", "thorough": "4 nodes: every entry node and all 24 global successor orders; 5 nodes attempted under a budget"},
+    bounds={"quick": "all directed graphs with <= 4 nodes (self loops, unreachable nodes, irreducible cycles included), every entry node for <= 3 nodes, two successor orders", "thorough": "4 nodes: every entry node and 6 global successor orders; 5 nodes attempted under a budget (soft)"},
     outside=["graphs with more than 4 nodes", "successor orders that differ from node to node (orders are a global permutation of the node numbering)", "call-graph instantiation cg_bgl.hpp (same template)"],
     assumptions=E2_ASSUME)
 
@@ -481,7 +487,7 @@ PROPS["C19"] = dict(
     assumptions=E2_ASSUME + E1_ASSUME)
 
 # ---------------------------------------------------------------- C11 (backward), C02 (checker verdicts)
-BWD_PROGS = ["bsel", "bsel2", "bdiv", "bloop", "noexit", "straight", "diamond", "loop", "loop2", "selfloop", "irreducible", "unreach", "ops"]
+BWD_PROGS = ["bsel", "bsel2", "bdiv", "bloop", "noexit", "straight", "diamond", "loop", "loop2", "selfloop", "irreducible", "unreach", "ops", "ops2", "bools2"]
 BWD_SYM = dict(FWD_SYM, bsel="0,1,2", bsel2="0,1,3", bdiv="2,3", bloop="1,2", noexit="0,2")
 
 
@@ -545,7 +551,7 @@ PROPS["C02"] = dict(
     assumptions=E2_ASSUME)
 
 # ---------------------------------------------------------------- C17 (transformations), C18 (liveness, assertion crawler)
-XF_PROGS = ["deadcode", "chain", "sumodd", "crawl", "straight", "diamond", "loop", "loop2", "nested", "selfloop", "irreducible", "unreach", "ops", "bools", "bsel2", "bloop", "noexit"]
+XF_PROGS = ["deadcode", "chain", "sumodd", "crawl", "straight", "diamond", "loop", "loop2", "nested", "selfloop", "irreducible", "unreach", "ops", "ops2", "bools", "bools2", "bsel2", "bloop", "noexit"]
 XF_SYM = dict(BWD_SYM, deadcode="0,1,3", chain="0,1,3", sumodd="0,1", crawl="0,1")
 
 
@@ -721,6 +727,8 @@ def c14_jobs(tier, seed):
     return J
 
 
+DOMS[28] = ("region_domain<interval_domain>", {})
+DOMS[29] = ("region_domain<split_dbm>", {})
 DOMS[26] = ("array_smashing<split_dbm>", {})
 DOMS[27] = ("array_adaptive_domain<split_dbm>", {})
 PROPS["C14"] = dict(
@@ -739,6 +747,8 @@ INTER_SYM = dict(call1=["0,1"], overwrite=["0,1"], twice=["1,2", "0,3"], rec=["0
 
 def inter_job(prog, sym, dom=1, bu=None, budget=400, **kw):
     args = {"prog": prog, "sym": sym}
+    if dom in MACHINE_WEIGHT:
+        args["range"] = 3  # int64 weights: constants within +-3 of the defaults (overflow of machine weights is outside the claim)
     args.update(kw)
     defs = ("DOM=%d" % dom,) + (("BU=%d" % bu,) if bu else ())
     what = "%s on %s, %s, %s" % ("bottom_up_inter_analyzer" if bu else "top_down_inter_analyzer", prog, DOMS[dom][0],
@@ -772,6 +782,12 @@ def c09_jobs(tier, seed):
         for (sym, rec) in (("", 1), ("0", 1), ("0,2", 0)):
             if d == 1 or sym == "":
                 J.append(inter_job("nest3", sym, d, rec=rec, blocks=150, depth=6))
+    # region domain as the invariant domain: reference and region parameters (formals sharing names with caller variables)
+    for d in (28, 29):
+        J.append(inter_job("refparam", "0,1", d))
+        J.append(inter_job("refparam", "0,1", d, ctx=1, exact=0))
+        J.append(inter_job("overwrite", "0,1", d))
+        J.append(inter_job("rec", "0,2", d, rec=1))
     if tier == "thorough":
         for pr in INTER_PROGS:
             for sym in INTER_SYM[pr]:
@@ -786,9 +802,9 @@ PROPS["C09"] = dict(
     jobs=c09_jobs,
     explanation="The real top_down_inter_analyzer (call_graph, restrict/extend at call sites, calling-context table with exact/approximate reuse and the bound on contexts, recursion handling, wto of every function) is run on a family of call graphs whose constants are symbolic; "
                 "the reference interpreter, extended with call/return semantics, executes main with nondeterministic choices and symbolic values; z3 decides for every block visit of every function that the state lies in gamma_obs of the context-insensitive invariant of the block, and for every returning call and every stored (pre, post) summary of the callee that pre(inputs) implies post(inputs, outputs).",
-    bounds={"quick": "8 call graphs (one call, output overwriting an argument and shared variable names, three calls with different contexts, direct recursion, mutual recursion, three functions in nested recursive components, call inside a loop, callee with branches), 2 symbolic constants each, intervals and zones, max_call_contexts in {1,2,3,unbounded}, exact and approximate reuse, precise and imprecise recursion, two widening settings; executions of <= 40 block visits and call depth <= 5 (150 / 6 for the nested components)",
+    bounds={"quick": "9 call graphs (one call, reference and region parameters under the region domain, output overwriting an argument and shared variable names, three calls with different contexts, direct recursion, mutual recursion, three functions in nested recursive components, call inside a loop, callee with branches), 2 symbolic constants each, intervals and zones, max_call_contexts in {1,2,3,unbounded}, exact and approximate reuse, precise and imprecise recursion, two widening settings; executions of <= 40 block visits and call depth <= 5 (150 / 6 for the nested components)",
             "thorough": "+ intervals x zones product, octagons, every (ctx, exact, rec) combination on intervals"},
-    outside=["call graphs outside the family", "array and reference arguments", "several entry functions (only_main_as_entry=false)", "max_call_contexts=1 with three different contexts (known finding F23) and functions whose recursion never returns under analyze_recursive_functions=true (known finding F24)"],
+    outside=["call graphs outside the family", "array arguments; reference arguments are passed but never dereferenced by the callee (only integer variables are compared with the concrete state)", "several entry functions (only_main_as_entry=false)", "max_call_contexts=1 with three different contexts (known finding F23) and functions whose recursion never returns under analyze_recursive_functions=true (known finding F24)"],
     assumptions=E2_ASSUME)
 
 
